@@ -35,7 +35,11 @@ Oracle clauses (signature prefix)
                                          application was never called with it)
   snep/put|get/oversize/<delivered|delivered-partial|reported-success|outcome-..|no-error-response-on-wire>
   snep/get/response-differs/<how>, snep/get/excess/<delivered|outcome-..|no-error-response-on-wire>
-  snep/get/response-incomplete-on-wire, handover/response/incomplete-on-wire   (time-out + idle link + wire content)
+  snep/get/response-incomplete-on-wire, handover/response/incomplete-on-wire   (time-out + idle link + wire content;
+                                         only when the wire was already idle - SYMM only, every server thread waiting
+                                         for input - at the moment the client call gave up: a transfer that was still
+                                         moving then was merely slow and is cut by the close() that follows -> INCONCLUSIVE;
+                                         the same guard holds for .../request-incomplete-on-wire after a time-out)
   handover/response/<differs/..|missing>, handover/request/send-failed
   <proto>/unexpected-delivery/<how>      an application call nobody asked for
   escape/<proto>/<op>/<exception@where>  a client call raised something else than the documented SnepError
@@ -155,7 +159,7 @@ def plan(tier, seed):
     if fullstack_available():      # part (b): complete-stack links (one connection at a time) on top of the sweep
         for i in range(n):
             if tier == "quick":
-                if i % 4 == 0:
+                if i % 2 == 0:
                     descs[i].update(fullstack=2, fullstack_batches=3)
             else:
                 descs[i].update(fullstack=12, fullstack_batches=4)
@@ -1077,6 +1081,11 @@ def run_conn(link, conn, res):
             except Exception as e:
                 o["outcome"] = ("exc", exc_sig(e), repr(e)[:200])
             o["dt"] = time.monotonic() - t0
+            if o["dt"] >= 0.9 * CALL_TIMEOUT:
+                # the call (probably) gave up by its time-out: was anything still moving at that moment?  Closing the
+                # connection afterwards cuts a transfer that was merely slow - only a wire that was already idle with
+                # every server thread waiting for input lets the wire content speak about "never" (no clock involved)
+                o["idle1"] = bool(link.symm_run >= SETTLE_SYMM and server_threads_parked())
             if res.get("sap_now") is not None:
                 o["sap"] = res["sap_now"]
             o["seq1"] = book.tick()
@@ -1448,6 +1457,9 @@ class Evaluator:
         """a call ended by its time-out: if the link is idle and the octets that crossed the wire are not the whole
         request, the message can never arrive - a verdict that does not depend on the time-out.  True = reported"""
         op = conn["ops"][opi]
+        if not o.get("idle1"):
+            self.R.count("timed_out_calls_not_idle_at_give_up")
+            return False
         if not self.link.alive() or not self.link.settle():
             return False
         ws = self.wire_streams(conn, o)
@@ -1467,6 +1479,9 @@ class Evaluator:
         return True
 
     def wire_response_incomplete(self, conn, opi, o, resp, sig):
+        if not o.get("idle1"):           # the transfer was still moving when the client gave up (slow run): no verdict
+            self.R.count("timed_out_calls_not_idle_at_give_up")
+            return False
         if not self.link.alive() or not self.link.settle():
             return False
         ws = self.wire_streams(conn, o)
